@@ -440,7 +440,7 @@ void SymmetricTridiagonalSolver<T>::solveSymmetricCyclicTridiagonal(T* x, T* u, 
         // Shermann-Morrison Adjustment
         gamma_ = -main_diagonal(0);
         main_diagonal(0) -= gamma_;
-        main_diagonal(matrix_dimension_ - 1) -= cyclic_corner_element() * cyclic_corner_element() / gamma_;
+        main_diagonal(matrix_dimension_ - 1) -= cyclic_corner_element() / gamma_ * cyclic_corner_element();
 
         for (int i = 1; i < matrix_dimension_; i++) {
             sub_diagonal(i - 1) /= main_diagonal(i - 1);
